@@ -43,6 +43,11 @@ struct G<'a> {
     dead: bool,
     last_st: String,
     reset_default: bool,
+    /// lowest last-stream-id of the GOAWAY frames this scripted peer has sent (it has said that it does not
+    /// process the endpoint's streams above it: what it sends on them afterwards is not judged)
+    peer_goaway_last: Option<u32>,
+    /// was the last operation a poll of the connection?
+    last_was_poll: bool,
     accepted: BTreeSet<u32>,
     flavor: &'static str,
 }
@@ -50,6 +55,7 @@ struct G<'a> {
 impl<'a> G<'a> {
     fn op(&mut self, line: String) -> String {
         writeln!(self.out, "{}", line).unwrap();
+        self.last_was_poll = line == "cn_poll";
         let ws: Vec<&str> = line.split(' ').filter(|w| !w.is_empty()).collect();
         let cn = &mut self.cn;
         let ans = match std::panic::catch_unwind(std::panic::AssertUnwindSafe(|| cn.handle(&ws))) {
@@ -315,6 +321,132 @@ impl<'a> G<'a> {
         }
         self.op("cn_budget inf".to_string());
         self.op("cn_poll".to_string());
+    }
+
+    /// a receive handle is dropped with so much unread DATA behind it that giving the octets back makes a
+    /// connection WINDOW_UPDATE due: the drop has to wake the connection task; the poll that follows here was
+    /// asked for by nobody else, so it must find nothing to write unless that wake-up was given (C06)
+    fn unread_drop_prelude(&mut self) {
+        let k = self.nslots;
+        let sid;
+        if self.role == "client" {
+            self.req(true, "GET");
+            self.op("cn_poll".to_string());
+            if self.dead || self.nslots <= k {
+                return;
+            }
+            sid = self.slot_sid[k];
+            if !self.streams.get(&sid).map(|s| s.headers_seen).unwrap_or(false) {
+                return;
+            }
+            self.peer(wire(1, 4, sid, &[0x88]));
+            if let Some(s) = self.streams.get_mut(&sid) {
+                s.responded = true;
+            }
+        } else {
+            sid = self.next_peer_sid;
+            self.next_peer_sid += 2;
+            let iws = self.our_iws;
+            self.streams.insert(sid, PeerStream { credit: iws, headers_seen: true, ..Default::default() });
+            self.peer(wire(1, 4, sid, &[0x83, 0x86, 0x84, 0x41, 0x01, b'a']));
+        }
+        // as much as both windows allow, in frames of at most 16 KiB, up to 48 KiB
+        let mut left = self.conn_credit.min(self.streams.get(&sid).map(|s| s.credit).unwrap_or(0)).min(49152);
+        while left > 0 {
+            let n = left.min(16384) as usize;
+            self.peer(wire(0, 0, sid, &vec![b'u'; n]));
+            self.conn_credit -= n as i64;
+            if let Some(s) = self.streams.get_mut(&sid) {
+                s.credit -= n as i64;
+            }
+            left -= n as i64;
+        }
+        self.op("cn_poll".to_string());
+        if self.role == "client" {
+            self.op(format!("cn_resp {}", k));
+        } else {
+            let a = self.op("cn_accept".to_string());
+            if let Some(rest) = Self::field(&a, "r=").strip_prefix("ok:") {
+                let p: Vec<&str> = rest.split(':').collect();
+                let sid: u32 = p[1].parse().unwrap_or(0);
+                self.nslots += 1;
+                self.slot_sid.push(sid);
+                self.accepted.insert(sid);
+            } else {
+                return;
+            }
+        }
+        self.op("cn_poll".to_string());
+        if self.dead {
+            return;
+        }
+        self.op(format!("cn_drop {} body", k));
+        if let Some(s) = self.streams.get_mut(&sid) {
+            s.recv_dropped = true;
+        }
+        self.op("cn_poll".to_string());
+        self.op("cn_poll".to_string());
+    }
+
+    /// window arrives while a DATA frame of the stream sits half written in the codec: a body larger than the
+    /// stream's window is submitted in one piece, the transport takes only part of the first frame, and the peer's
+    /// WINDOW_UPDATEs (or a raised SETTINGS_INITIAL_WINDOW_SIZE) are read at exactly that moment; afterwards the
+    /// transport opens up and the connection is polled until it has nothing more to write — the whole body must
+    /// have gone out (C06: nothing sendable is left behind; C01: the length at END_STREAM is what was submitted)
+    fn window_in_flight_prelude(&mut self) {
+        let k = self.nslots;
+        if self.role == "client" {
+            self.req(false, "POST");
+            self.op("cn_poll".to_string());
+        } else {
+            let sid = self.next_peer_sid;
+            self.next_peer_sid += 2;
+            let iws = self.our_iws;
+            self.streams.insert(sid, PeerStream { credit: iws, headers_seen: true, ..Default::default() });
+            self.peer(wire(1, 5, sid, &[0x82, 0x86, 0x84, 0x41, 0x01, b'a']));
+            self.op("cn_poll".to_string());
+            let a = self.op("cn_accept".to_string());
+            if let Some(rest) = Self::field(&a, "r=").strip_prefix("ok:") {
+                let p: Vec<&str> = rest.split(':').collect();
+                let sid: u32 = p[1].parse().unwrap_or(0);
+                self.nslots += 1;
+                self.slot_sid.push(sid);
+                self.accepted.insert(sid);
+                self.op(format!("cn_respond {} 200 0", k));
+                self.op("cn_poll".to_string());
+            }
+        }
+        if self.dead || self.nslots <= k {
+            return;
+        }
+        let sid = self.slot_sid[k];
+        let len = *self.rng.pick(&[70000usize, 100000, 200000]);
+        self.op(format!("cn_data {} {} 1", k, len));
+        let b = *self.rng.pick(&[9usize, 100, 1500, 6000, 20000]);
+        self.op(format!("cn_budget {}", b));
+        self.op("cn_poll".to_string());
+        match self.rng.below(3) {
+            0 => {
+                self.peer(wire(8, 0, sid, &(1u32 << 20).to_be_bytes()));
+                self.peer(wire(8, 0, 0, &(1u32 << 20).to_be_bytes()));
+            }
+            1 => {
+                self.peer(wire(8, 0, 0, &(1u32 << 20).to_be_bytes()));
+                self.peer(wire(8, 0, sid, &(1u32 << 20).to_be_bytes()));
+            }
+            _ => {
+                // the window comes as a raised SETTINGS_INITIAL_WINDOW_SIZE
+                let mut p = vec![0u8, 4];
+                p.extend_from_slice(&(1u32 << 20).to_be_bytes());
+                self.peer(wire(4, 0, 0, &p));
+                self.peer(wire(8, 0, 0, &(1u32 << 20).to_be_bytes()));
+            }
+        }
+        self.op("cn_poll".to_string());
+        if self.rng.chance(1, 2) {
+            self.op("cn_poll".to_string());
+        }
+        self.drain();
     }
 
     /// a stream that has ended in both directions while the application still holds unreleased DATA: the capacity is
@@ -615,6 +747,7 @@ impl<'a> G<'a> {
                 let code = *self.rng.pick(&[0u32, 0, 2]);
                 let mut p = last.to_be_bytes().to_vec();
                 p.extend_from_slice(&code.to_be_bytes());
+                self.peer_goaway_last = Some(self.peer_goaway_last.map(|l| l.min(last)).unwrap_or(last));
                 self.peer(wire(7, 0, 0, &p));
             }
             _ => {
@@ -825,6 +958,17 @@ impl<'a> G<'a> {
         0
     }
 
+    /// has the endpoint announced a GOAWAY (digest `K:<state>,<going_away>,…`)?  From then on it may discard frames
+    /// on stream ids above its cut-off without looking at them (RFC 9113 section 6.8)
+    fn going_away(&self) -> bool {
+        for seg in self.last_st.split('|') {
+            if let Some(rest) = seg.strip_prefix("K:") {
+                return rest.split(',').nth(1) == Some("1");
+            }
+        }
+        false
+    }
+
     /// C09: after a legal prefix inject ONE frame of a known class and watch the reaction.
     /// `conn` = must end in GOAWAY with an error code; `stream` = at least RST_STREAM for that stream;
     /// `tolerate` = no error at all, the connection keeps answering.
@@ -837,8 +981,18 @@ impl<'a> G<'a> {
             return;
         }
         // streams by state, from the peer's point of view
-        let open_both = self.live_sids(|s| s.headers_seen && !s.peer_closed && !s.we_closed && (s.responded || !client) && !s.odd_head);
-        let peer_done = self.live_sids(|s| s.headers_seen && s.peer_closed && !s.we_closed && s.responded);
+        let cut = self.peer_goaway_last;
+        let below_cut = move |sid: u32| client == false || cut.map(|l| sid <= l).unwrap_or(true);
+        let open_both: Vec<u32> = self
+            .live_sids(|s| s.headers_seen && !s.peer_closed && !s.we_closed && (s.responded || !client) && !s.odd_head)
+            .into_iter()
+            .filter(|sid| below_cut(*sid))
+            .collect();
+        let peer_done: Vec<u32> = self
+            .live_sids(|s| s.headers_seen && s.peer_closed && !s.we_closed && s.responded)
+            .into_iter()
+            .filter(|sid| below_cut(*sid))
+            .collect();
         let unused_peer_id: u32 = if client { 2 + 2 * self.rng.below(50) as u32 } else { self.next_peer_sid + 2 * self.rng.below(3) as u32 };
         let some_sid = *open_both.first().unwrap_or(&0);
         let mut cands: Vec<(&'static str, u32, Vec<u8>)> = vec![
@@ -924,12 +1078,20 @@ impl<'a> G<'a> {
             }
             cands.push(("nokill", p1 + 4, b));
         }
+        // (a stream id the endpoint has never seen: judged only while the endpoint has not sent a GOAWAY — after
+        //  one it ignores every frame on an id above its cut-off, whatever the id's parity)
+        let fresh_ids_judged = !self.going_away();
         if client {
-            cands.push(("conn", 0, wire(1, 4, unused_peer_id, &[0x88])));                         // server opens a stream with HEADERS
+            if fresh_ids_judged {
+                cands.push(("conn", 0, wire(1, 4, unused_peer_id, &[0x88])));                     // server opens a stream with HEADERS
+            }
             cands.push(("conn", 0, wire(5, 4, some_sid.max(1), &[0, 0, 0, 1, 0x82, 0x86, 0x84]))); // PUSH_PROMISE promising an odd id
         } else {
             cands.push(("conn", 0, wire(5, 4, 1, &[0, 0, 0, 2, 0x82, 0x86, 0x84])));              // PUSH_PROMISE to a server
-            cands.push(("conn", 0, wire(1, 4, 2 + 2 * self.rng.below(5) as u32, &[0x82, 0x86, 0x84]))); // client uses an even id
+            let even = 2 + 2 * self.rng.below(5) as u32;
+            if fresh_ids_judged {
+                cands.push(("conn", 0, wire(1, 4, even, &[0x82, 0x86, 0x84])));                   // client uses an even id
+            }
             if self.next_peer_sid > 3 && self.streams.get(&1).map(|s| !s.we_reset && !s.peer_reset).unwrap_or(true) {
                 cands.push(("streamorconn", 1, wire(1, 4, 1, &[0x00, 0x01, b'a', 0x01, b'b'])));  // a second HEADERS without END_STREAM on an old stream
             }
@@ -1089,6 +1251,41 @@ impl<'a> G<'a> {
             self.op("cn_poll".to_string());
             self.op("cn_io".to_string());
         }
+        if self.rng.chance(1, 3) && self.nslots > 0 && !self.dead {
+            // the end comes while the codec cannot take another frame: a DATA frame is half written and the
+            // transport refuses more.  Whatever GOAWAY is owed then has to wait, and must still go out.
+            let k = self.nslots - 1;
+            if self.role == "server" {
+                self.op(format!("cn_respond {} 200 0", k));
+            }
+            let len = *self.rng.pick(&[5000usize, 16384, 20000]);
+            self.op(format!("cn_data {} {} 0", k, len));
+            let b = *self.rng.pick(&[0usize, 9, 100, 1500]);
+            self.op(format!("cn_budget {}", b));
+            self.op("cn_poll".to_string());
+            match self.rng.below(3) {
+                0 if self.role == "server" => {
+                    let code = *self.rng.pick(&[0u32, 2, 11]);
+                    self.op(format!("cn_abrupt {}", code));
+                }
+                1 if self.role == "server" => {
+                    self.op("cn_graceful".to_string());
+                }
+                _ => {
+                    self.peer(wire(0, 0, 0, b"x")); // DATA on stream 0: a fatal protocol error, GOAWAY owed
+                }
+            }
+            self.op("cn_poll".to_string());
+            if self.rng.chance(1, 2) {
+                self.op("cn_poll".to_string());
+            }
+            self.op("cn_budget inf".to_string());
+            self.op("cn_poll".to_string());
+            self.answer_pings();
+            self.op("cn_poll".to_string());
+            self.op("cn_poll".to_string());
+            self.op("cn_io".to_string());
+        }
         match self.rng.below(9) {
             0 => {
                 self.op("cn_eof".to_string());
@@ -1241,6 +1438,8 @@ pub fn generate(profile: &str, rng: &mut Rng, cases: usize, out: &mut dyn Write)
             dead: false,
             last_st: String::new(),
             reset_default: !opts.iter().any(|o: &String| o.starts_with("reset_")),
+            peer_goaway_last: None,
+            last_was_poll: false,
             accepted: BTreeSet::new(),
             flavor,
         };
@@ -1270,7 +1469,17 @@ pub fn generate(profile: &str, rng: &mut Rng, cases: usize, out: &mut dyn Write)
         if flavor != "c09" && g.rng.chance(1, 6) {
             g.late_release_prelude();
         }
+        if flavor != "c09" && g.rng.chance(1, 6) {
+            g.window_in_flight_prelude();
+        }
+        if flavor != "c09" && g.rng.chance(1, 6) {
+            g.unread_drop_prelude();
+        }
         let nops = if flavor == "c09" { 5 + g.rng.below(60) } else { 20 + g.rng.below(180) };
+        // in half of the histories the connection is often polled right after a single operation, although nobody
+        // may have woken it: such a poll must find nothing to write (C06: a handle that gives the connection work
+        // wakes it) — with long gaps between polls the operation that forgot the wake-up hides behind the others
+        let probe_polls = flavor != "c09" && g.rng.chance(1, 2);
         for _ in 0..nops {
             if g.dead {
                 break;
@@ -1279,6 +1488,9 @@ pub fn generate(profile: &str, rng: &mut Rng, cases: usize, out: &mut dyn Write)
                 g.step_client();
             } else {
                 g.step_server();
+            }
+            if probe_polls && !g.last_was_poll && !g.dead && g.rng.chance(1, 3) {
+                g.op("cn_poll".to_string());
             }
         }
         if !g.dead && flavor == "c09" {
